@@ -76,9 +76,12 @@ def gen_case(rng, dims=None):
     if dims is None:
         dims = [d for d in DIMS if rng.random() < 0.5]
     levels = [c for c in ("ModifiedPeptide", "Precursor", "PeptideGroup") if rng.random() < 0.6] or ["Precursor"]
+    folds = rng.choice([2, 3, 3, 4])
+    if "ensemble" in dims and folds < 3:
+        folds = 3       # (the mean over two models does not depend on their order: a + b = b + a)
     return dict(kind="pipeline", data_seed=rng.randrange(1 << 30), seed=rng.randrange(10000),
                 n_spectra=rng.choice([150, 250]),
-                n_pep=rng.choice([24, 40]), folds=rng.choice([2, 3, 3, 4]), workers=1,
+                n_pep=rng.choice([24, 40]), folds=folds, workers=1,
                 fmt=rng.choice(["pin", "parquet"]), peps=rng.choice(["qvality", "qvality", "kde_nnls"]),
                 level_cols=levels if "level_cols" in dims else [], ncoll=2 if "ncoll" in dims else 1,
                 fasta_decoys="fasta_decoys" in dims, ties="ties" in dims, ensemble="ensemble" in dims,
